@@ -826,3 +826,157 @@ pub fn overhead(rec: &mut Recorder, rng: &mut Rng, thorough: bool) {
         rec.count("generator_too_weak_singular_sets");
     }
 }
+
+// ---------------------------------------------------------------- configuration independence (C07)
+pub fn configs(rec: &mut Recorder, rng: &mut Rng, thorough: bool, outdir: &str, seed: u64) {
+    use crate::workload;
+    use raptorq::verif::verif_kernels as vk;
+    let _ = rng;
+    // (1) the public-API workload, identical text in every build of every harness
+    let lines = workload::run(seed, !thorough);
+    std::fs::write(format!("{outdir}/workload.txt"), lines.join("\n") + "\n").unwrap();
+    for l in &lines { if l.ends_with("correct=false") { rec.impl_violation(format!("workload case decodes to wrong bytes: {l}")); } }
+    // (2) tie to the model + per-configuration comparison
+    let cases = workload::cases(seed, !thorough);
+    for c in &cases {
+        let cfg = Oti::new(c.f, c.t, c.z, c.n, c.al);
+        REPAIR.with(|r| r.set(c.repair));
+        vk::set_ceiling(vk::NO_CEILING);
+        let canon = Encoder::new(&c.data, cfg).get_encoded_packets(c.repair);
+        if c.f <= 4000 {
+            rec.put(&format!("objenc {} {} {} {} {} {} {}", c.f, c.t, c.z, c.n, c.al, hex(&c.data), c.repair), &format!("{} {}", canon.len(), digest(&pkts_str(&canon))));
+        }
+        // erasure pattern (same as the workload's)
+        let kept: Vec<EncodingPacket> = canon.iter().enumerate().filter(|(i, _)| (*i as u64 * 2654435761 + c.f) % 7 > 1).map(|(_, p)| p.clone()).collect();
+        let outcome = |thr: Option<u32>| -> Vec<Option<Vec<u8>>> {
+            let mut dec = Decoder::new(cfg);
+            if let Some(t) = thr { dec.set_sparse_threshold(t); }
+            kept.iter().map(|p| dec.decode(p.clone())).collect()
+        };
+        let canon_out = outcome(None);
+        for level in [vk::AVX512, vk::AVX2, vk::SSSE3, vk::PORTABLE] {
+            vk::set_ceiling(level);
+            for thr in [0u32, 250, u32::MAX] {
+                // encoders: whole-object, and per block in the three plan modes
+                let (d2, kept2) = (c.data.clone(), kept.clone());
+                let _ = kept2;
+                let r = guarded(move || {
+                    let offs = raptorq::calculate_block_offsets(&d2, &cfg);
+                    let mut all: Vec<Vec<EncodingPacket>> = vec![vec![], vec![], vec![]];
+                    for (b, (s, e)) in offs.iter().enumerate() {
+                        let mut block = d2[*s..(*e).min(d2.len())].to_vec();
+                        block.resize(e - s, 0);
+                        let k = (block.len() / cfg.symbol_size() as usize) as u16;
+                        let encs = [
+                            SourceBlockEncoder::new(b as u8, &cfg, &block),
+                            SourceBlockEncoder::with_encoding_plan(b as u8, &cfg, &block, &SourceBlockEncodingPlan::verif_generate(k, thr).unwrap()),
+                            SourceBlockEncoder::verif_new_unplanned(b as u8, &cfg, &block, thr).unwrap(),
+                        ];
+                        for (m, e) in encs.iter().enumerate() {
+                            all[m].extend(e.source_packets());
+                            all[m].extend(e.repair_packets(0, c_repair(&cfg, 0)));
+                        }
+                    }
+                    all
+                });
+                fn c_repair(_: &Oti, x: u32) -> u32 { x }
+                match r {
+                    Ok(all) => {
+                        for (m, pk) in all.iter().enumerate() {
+                            // source packets + zero repair packets here; repair compared below
+                            let want: Vec<&EncodingPacket> = canon.iter().filter(|p| (p.payload_id().encoding_symbol_id() as usize) < block_k(&canon, p.payload_id().source_block_number())).collect();
+                            if pk.iter().collect::<Vec<_>>() != want {
+                                rec.impl_violation(format!("source packets differ in configuration path={level} threshold={thr} mode={m}: F={} T={} Z={}", c.f, c.t, c.z));
+                            }
+                        }
+                    }
+                    Err(_) => rec.impl_violation(format!("encoder panics in configuration path={level} threshold={thr}: F={} T={} Z={}", c.f, c.t, c.z)),
+                }
+                // full packets through the object encoder under this path, and repair packets per mode
+                let d3 = c.data.clone();
+                let rep = c.repair;
+                let r = guarded(move || Encoder::new(&d3, cfg).get_encoded_packets(rep));
+                if r.as_ref().ok() != Some(&canon) {
+                    rec.impl_violation(format!("packets differ on kernel path {level}: F={} T={} Z={} N={} Al={}", c.f, c.t, c.z, c.n, c.al));
+                }
+                let out = outcome(Some(thr));
+                if out != canon_out {
+                    rec.impl_violation(format!("decoder outcome differs in configuration path={level} threshold={thr}: F={} T={} Z={} N={} Al={}", c.f, c.t, c.z, c.n, c.al));
+                }
+                rec.count("configurations");
+            }
+        }
+        vk::set_ceiling(vk::NO_CEILING);
+        // repair packets in the three plan modes and thresholds (single-block cases)
+        if c.z == 1 {
+            let k = canon.iter().filter(|p| true && p.payload_id().source_block_number() == 0).count() as u32 - c.repair;
+            let mut block = c.data.clone();
+            block.resize(k as usize * c.t as usize, 0);
+            for thr in [0u32, 250, u32::MAX] {
+                let encs = [
+                    SourceBlockEncoder::with_encoding_plan(0, &cfg, &block, &SourceBlockEncodingPlan::verif_generate(k as u16, thr).unwrap()),
+                    SourceBlockEncoder::verif_new_unplanned(0, &cfg, &block, thr).unwrap(),
+                    SourceBlockEncoder::new(0, &cfg, &block),
+                ];
+                for (m, e) in encs.iter().enumerate() {
+                    let mut pk = e.source_packets();
+                    pk.extend(e.repair_packets(0, c.repair));
+                    if pk != canon { rec.impl_violation(format!("packets differ with plan mode {m} at threshold {thr}: F={} T={}", c.f, c.t)); }
+                }
+                rec.count("plan_mode_checks");
+            }
+        }
+        rec.count("cases");
+    }
+    backend_rows(rec, rng, thorough);
+}
+
+// dense vs sparse back-end on Table-2 rows whose shape is word-boundary sensitive (number of PI
+// symbols P = 0, 1, 63 mod 64) — unchecked builds only (checked builds self-verify in O(L^3))
+pub fn backend_rows(rec: &mut Recorder, rng: &mut Rng, thorough: bool) {
+    if checked_build() { rec.count("backend_rows_skipped_checked_build"); return; }
+    let t2 = rq::SYSTEMATIC_INDICES_AND_PARAMETERS;
+    let lim = if thorough { 7000 } else { 1800 };
+    for (kp, _, s, h, w) in t2.iter().copied() {
+        let p = kp + s + h - w;
+        if kp > lim || !(p % 64 == 0 || p % 64 == 1 || p % 64 == 63 || rng.chance(1, if thorough { 8 } else { 60 })) { continue; }
+        let k = kp;
+        let data = rng.bytes(k as usize);
+        let cfg = cfg_for(k, 1, 1, 1);
+        let d2 = data.clone();
+        let r = guarded(move || {
+            let a = SourceBlockEncoder::verif_new_unplanned(0, &cfg, &d2, 0).map(|e| e.verif_intermediate_symbols());
+            let b = SourceBlockEncoder::verif_new_unplanned(0, &cfg, &d2, u32::MAX).map(|e| e.verif_intermediate_symbols());
+            let enc = SourceBlockEncoder::new(0, &cfg, &d2);
+            let mut pk = enc.source_packets();
+            pk.drain(0..3.min(pk.len()));
+            pk.extend(enc.repair_packets(0, 5));
+            let outs: Vec<Option<Vec<u8>>> = [0u32, u32::MAX].iter().map(|thr| { let mut dec = SourceBlockDecoder::new(0, &cfg, k as u64); dec.set_sparse_threshold(*thr); dec.decode(pk.clone()) }).collect();
+            (a, b, outs)
+        });
+        match r {
+            Ok((a, b, outs)) => {
+                if a.is_none() || a != b { rec.impl_violation(format!("dense and sparse back-ends give different intermediate symbols (or fail) for K'={kp} (P={p})")); }
+                if outs[0] != outs[1] || outs[0].as_deref() != Some(&data[..]) { rec.impl_violation(format!("decoding depends on the matrix back-end for K'={kp} (P={p})")); }
+            }
+            Err(_) => rec.impl_violation(format!("a matrix back-end panics for K'={kp} (P={p}, sparse threshold 0 / infinity)")),
+        }
+        rec.count("backend_rows");
+        if p % 64 == 0 { rec.count("backend_rows_P_multiple_of_64"); }
+    }
+}
+
+fn block_k(canon: &[EncodingPacket], sbn: u8) -> usize {
+    // number of source symbols of a block = count of its packets minus the repair packets; the
+    // repair count is the same for all blocks, so derive it from the largest ESI gap-free prefix
+    let mut esis: Vec<u32> = canon.iter().filter(|p| p.payload_id().source_block_number() == sbn).map(|p| p.payload_id().encoding_symbol_id()).collect();
+    esis.sort();
+    let total = esis.len();
+    let blocks: std::collections::BTreeSet<u8> = canon.iter().map(|p| p.payload_id().source_block_number()).collect();
+    let _ = blocks;
+    // repair packets were requested as `repair` per block: the caller filters by ESI < K where
+    // K = total - repair; recover repair as the count shared by all blocks (total of smallest block - its K)
+    total - REPAIR.with(|r| r.get()) as usize
+}
+
+thread_local! { static REPAIR: std::cell::Cell<u32> = std::cell::Cell::new(0); }
